@@ -847,7 +847,11 @@ func scenarios(thorough bool) []*dialerh.Scenario {
 	}
 	for _, t := range doms {
 		// thr: thresholds hit at, just below, just above — every failure source, success kinds, ignorable errors
-		c := &cfg{name: "thr/" + typeShort[t], addrs: []string{"addr-x"}, groups: oneNode, depth: pick(5, 6)}
+		thrDepth := pick(5, 6)
+		if !isTCP(t) {
+			thrDepth = pick(4, 5) // twelve events, two of them 49/50 calls long
+		}
+		c := &cfg{name: "thr/" + typeShort[t], addrs: []string{"addr-x"}, groups: oneNode, depth: thrDepth}
 		m := map[evKind][]int{evPOK: nil, evPFail: probeK(t), evTFail: trafK(t), evFFail: nil, evTOK: nil, evIgn: nil}
 		if !isTCP(t) {
 			m[evXFail] = []int{1, 3}
@@ -905,11 +909,11 @@ func scenarios(thorough bool) []*dialerh.Scenario {
 	}
 	if thorough {
 		// cross: two nodes with different addresses, three domains each, deaths/revivals/reload across domains
-		c := &cfg{name: "cross/tcp4+dns4+dat4", addrs: []string{"addr-x", "addr-y"}, groups: twoA, depth: 7}
+		c := &cfg{name: "cross/tcp4+dns4+dat4", addrs: []string{"addr-x", "addr-y"}, groups: twoA, depth: 6}
 		for n := 0; n < 2; n++ {
-			c.addNodeEvents(n, TCP4, map[evKind][]int{evPOK: nil, evPFail: nil, evTFail: {10}})
-			c.addNodeEvents(n, DNS4, map[evKind][]int{evPOK: nil, evPFail: {3}, evFFail: nil})
-			c.addNodeEvents(n, DAT4, map[evKind][]int{evTFail: {50}, evFFail: nil, evTOK: nil})
+			c.addNodeEvents(n, TCP4, map[evKind][]int{evPOK: nil, evPFail: nil})
+			c.addNodeEvents(n, DNS4, map[evKind][]int{evPFail: {3}, evFFail: nil})
+			c.addNodeEvents(n, DAT4, map[evKind][]int{evFFail: nil, evTOK: nil})
 		}
 		c.addGlobal(evReload, evAdv)
 		out = append(out, makeScenario(c))
@@ -922,7 +926,7 @@ func main() {
 		ID: "C16",
 		Rule: "states = distinct FULL dumps (every collection of every node: alive flag, both failure counters, latency window, moving average, last probe; recovery levels and pending confirmation timers as deadline-minus-now; every AliveDialerSet of every group: array order, index map, cached best; connectivity bits last written; suppression counter and remaining quiesce window; per-address failure tracker; the reference's interval counters) reached by BFS over event histories on the real objects, one history = fresh objects + replay inside ONE vsched.Run on the virtual clock; transitions = (state,event) executions, each judged call by call against the reference from the statement; alphabet per scenario: probe ok / probe fail xk / transactional fail xk / traffic fail xk (k hits each threshold at, just below, just above: 1,2,3 | 1,9,10 | 1,49,50) / forced fail / traffic ok / cancellation+teardown errors / suppression begin,end / advance 21s (past the 20s quiesce window) / reload (real ControlPlane.InheritDialerHealthFrom into a fresh generation, for both outcomes of the random fallback pick); distinct_nontrivial = distinct (alive matrix, connectivity bits, open suppression scopes, last event) observations summed over scenarios",
 		Scenarios:   scenarios,
-		BudgetQuick: 60 * time.Second, BudgetThorough: 17 * time.Minute,
+		BudgetQuick: 45 * time.Second, BudgetThorough: 17 * time.Minute,
 		Assumptions: []string{
 			"nodes are built by NewDialer on a fake transport with the background checker disabled; probes are the real Dialer.check() with a scripted CheckFunc that takes 40ms of virtual time; production probes only tcp4/6 and dns-udp4/6, the harness also probes data-UDP (findings reachable only that way are marked)",
 			"transactional failure reports (DNS request failures) are read as probe-class failures (threshold 1 TCP / 3 UDP), forced reports as immediate",
